@@ -73,20 +73,52 @@ Theorem compat_add_units_only_by_equality : forall fl a b,
   compat_add T fl a b =
   compat_add T fl (with_units a uzero) (with_units b (if ueqb (ou a) (ou b) then uzero else u_volt)).
 Proof.
-  intros fl [d q u v] [d' q' u' v']. unfold compat_add, with_units, cq, cd, is_const, aq, adom, add_compatible, mown,
+  intros fl [d q u v] [d' q' u' v']. unfold compat_add, compat_add_b, with_units, cq, cd, is_const, aq, adom, add_compatible, mown,
     compatible_phasors, same_dom, aq, adom. simpl.
   destruct (ueqb u u'); destruct v, v'; reflexivity.
 Qed.
 
-Theorem add_model_units_only_by_equality : forall fl a b,
-  add_model T fl a b =
-  add_model T fl (with_units a uzero) (with_units b (if ueqb (ou a) (ou b) then uzero else u_volt)).
+Lemma construct_class_indep : forall c hv u u', res_class (construct T c hv u) = res_class (construct T c hv u').
 Proof.
-  intros fl a b. unfold add_model. rewrite (compat_add_units_only_by_equality fl a b).
-  destruct a as [d q u v], b as [d' q' u' v']. unfold with_units, mown, is_undef_dom, cd. simpl.
+  intros [[d q]|] hv u u'; [|reflexivity]. unfold construct.
+  destruct (dflag T F_is_undefined_domain d && negb hv); reflexivity.
+Qed.
+(* the CLASS of a sum depends on the operand units only through their equality *)
+Theorem add_class_units_only_by_equality : forall fl a b,
+  res_class (add_model T fl a b) =
+  res_class (add_model T fl (with_units a uzero) (with_units b (if ueqb (ou a) (ou b) then uzero else u_volt))).
+Proof.
+  intros fl a b. unfold add_model, add_model_b. fold (compat_add T fl a b).
+  fold (compat_add T fl (with_units a uzero) (with_units b (if ueqb (ou a) (ou b) then uzero else u_volt))).
+  rewrite (compat_add_units_only_by_equality fl a b).
+  destruct a as [d q u v], b as [d' q' u' v']. unfold with_units, mown, is_undef_dom, cd. cbn [od oq ou ov].
   destruct (meth_owner T M_add d q); try reflexivity.
   destruct (meth_owner T M_compat_add d q); try reflexivity.
-  destruct (compat_add T fl _ _) as [e|[|]]; reflexivity.
+  destruct (compat_add T fl _ _) as [e|[|]]; try reflexivity; cbn [od oq]; apply construct_class_indep.
+Qed.
+Lemma res_class_RK : forall r d q, res_class r = RK d q uzero -> exists u, r = RK d q u.
+Proof. intros [d' q' u'| | |] d q H; simpl in H; try discriminate. inversion H; subst. exists u'. reflexivity. Qed.
+Lemma res_class_of_RK : forall r d q u, r = RK d q u -> res_class r = RK d q uzero.
+Proof. intros r d q u ->. reflexivity. Qed.
+
+(* the units of an accepted sum: the class default, or - when __add__/__sub__ go through
+   Expr._sum_units - the units of one of the operands *)
+Theorem sum_units_cases : forall fl a b d q u,
+  add_model T fl a b = RK d q u -> u = def_units T d q \/ (add_keeps_units T = true /\ (u = ou a \/ u = ou b)).
+Proof.
+  intros fl a b d q u. unfold add_model, add_model_b.
+  destruct (mown T M_add a); try discriminate. destruct (mown T M_compat_add a); try discriminate.
+  destruct (compat_add_b T fl a b _) as [e|s]; [discriminate|].
+  unfold construct, sum_units.
+  match goal with |- context [dflag T F_is_undefined_domain ?x && ?y] => destruct (dflag T F_is_undefined_domain x && y) end;
+    [discriminate|].
+  destruct (add_keeps_units T).
+  - match goal with |- context [if ?c then Some (ou a) else _] => destruct c end.
+    + intros H; inversion H; subst. right. split; [reflexivity|left; reflexivity].
+    + match goal with |- context [if ?c then Some (ou b) else _] => destruct c end.
+      * intros H; inversion H; subst. right. split; [reflexivity|right; reflexivity].
+      * intros H; inversion H; subst. left. reflexivity.
+  - intros H; inversion H; subst. left. reflexivity.
 Qed.
 
 (* a refused sum never compares equal, and the result of == is the equality of the
@@ -94,12 +126,12 @@ Qed.
 Theorem eq_false_when_refused : forall fl a b same e,
   mown T M_eq a = O_Expr -> mown T M_compat_add a = O_Expr ->
   compat_add T fl a b = inl e -> eq_model T fl a b same = RB false.
-Proof. intros fl a b same e H1 H2 H. unfold eq_model. rewrite H1, H2, H. reflexivity. Qed.
+Proof. intros fl a b same e H1 H2 H. unfold eq_model, eq_model_b. unfold compat_add in H. rewrite H1, H2, H. reflexivity. Qed.
 
 Theorem add_refused_iff_compat : forall fl a b,
   mown T M_add a = O_Expr -> mown T M_compat_add a = O_Expr ->
   forall e, compat_add T fl a b = inl e -> add_model T fl a b = RE e.
-Proof. intros fl a b H1 H2 e H. unfold add_model. rewrite H1, H2, H. reflexivity. Qed.
+Proof. intros fl a b H1 H2 e H. unfold add_model, add_model_b. unfold compat_add in H. rewrite H1, H2, H. reflexivity. Qed.
 
 (* the flag canonical_units is not an input of any operator model *)
 Theorem canonical_units_irrelevant : forall l c k k' a b same,
@@ -117,7 +149,8 @@ Print Assumptions mul_units_implied.
 Print Assumptions div_units_of_effective_operands.
 Print Assumptions div_units_implied.
 Print Assumptions compat_add_units_only_by_equality.
-Print Assumptions add_model_units_only_by_equality.
+Print Assumptions add_class_units_only_by_equality.
+Print Assumptions sum_units_cases.
 Print Assumptions eq_false_when_refused.
 Print Assumptions add_refused_iff_compat.
 Print Assumptions canonical_units_irrelevant.
